@@ -168,11 +168,26 @@ def check_case(ctx, case, rng):
 
             base = Union if issubclass(T, Union) else Structure
             inc = cs._make_struct("T", [], align=cfgd["align"], base=base)
+            # the reader is requested at the start -- or later: between two steps, or inside a batch
+            compile_at = None
             if cfgd["compiled"] and base is Structure:
-                inc = compiler.compile(inc)
+                if rng.random() < 0.65:
+                    inc = compiler.compile(inc)
+                else:
+                    compile_at = (rng.randrange(len(steps)), rng.choice(["before", "inside"]))
+                    ctx.cell("reader-requested-later:" + compile_at[1])
             used = raised = refused = 0
             try:
-                for kind, idxs in steps:
+                for si, (kind, idxs) in enumerate(steps):
+                    if compile_at == (si, "before") or (compile_at == (si, "inside") and kind == "single"):
+                        inc = compiler.compile(inc)
+                    elif compile_at == (si, "inside"):
+                        with inc.start_update():
+                            compiler.compile(inc)
+                            for i in idxs:
+                                f = T.__fields__[i]
+                                inc.add_field(f.name, f.type, bits=f.bits)
+                        continue
                     if rng.random() < 0.4:
                         use_intermediate(inc, rng)
                         used += 1
@@ -322,6 +337,90 @@ def self_reference(ctx):
                 except Exception as e:  # noqa: BLE001
                     ctx.violation("self-reference", f"self-referential-shape-raises:{type(e).__name__}",
                                   {"text": stext, "compiled": compiled, "ptr": ptr, "error": lib.exc_sig(e)})
+            # a structure that contains a (zero-length, "flexible") array of itself: whatever the reader generator makes
+            # of it, the definition loads and is built incrementally with the same result in both reader modes
+            for how in ("text", "add_field", "start_update"):
+                ctx.evaluation(("selfref-flexible-array", how, compiled, ptr))
+                ctx.cell("self-reference:flexible-array-of-itself")
+                ftext = "struct node { uint8 v; uint8 n; node kids[0]; };"
+                try:
+                    if how == "text":
+                        cs = lib.load(ftext, "<", False, compiled, ptr)
+                        N = cs.node
+                    else:
+                        from dissect.cstruct import compiler as _c
+
+                        cs = lib.cstruct(pointer=ptr)
+                        N = cs._make_struct("node", [])
+                        if compiled:
+                            N = _c.compile(N)
+                        if how == "add_field":
+                            N.add_field("v", cs.uint8)
+                            N.add_field("n", cs.uint8)
+                            N.add_field("kids", N[0])
+                        else:
+                            with N.start_update():
+                                N.add_field("v", cs.uint8)
+                                N.add_field("n", cs.uint8)
+                                N.add_field("kids", N[0])
+                    o = N(b"\x05\x06\x07")
+                    if (len(N), int(o.v), int(o.n), list(o.kids), o.dumps(), [f.name for f in N.__fields__]) != \
+                            (2, 5, 6, [], b"\x05\x06", ["v", "n", "kids"]):
+                        ctx.violation("self-reference", "self-referential-structure-misbehaves",
+                                      {"text": ftext, "compiled": compiled, "how": how, "got": lib.stable_repr(o)})
+                except Exception as e:  # noqa: BLE001
+                    ctx.violation("self-reference", f"self-referential-structure-raises:{type(e).__name__}",
+                                  {"text": ftext, "compiled": compiled, "how": how, "error": lib.exc_sig(e)})
+            # a pointer to the structure itself behind a variable-size member and an anonymous member: however the fields
+            # are committed, the structure gets the reader the definition in one piece gets
+            if ptr == "uint8":
+                from dissect.cstruct import Field as _F
+                from dissect.cstruct import compiler as _c2
+                from dissect.cstruct.expression import Expression as _E2
+
+                ctx.evaluation(("selfref-after-anonymous", compiled))
+                ctx.cell("self-reference:pointer-to-itself-after-dynamic-and-anonymous-members")
+                stext = "struct S { uint8 n; uint8 d[n]; struct { uint16 p; }; S *g; uint8 t; };"
+                try:
+                    states = {}
+                    data = bytes([2, 9, 8, 1, 0, 0, 7])
+                    for how in ("text", "batch", "single", "two-batches"):
+                        cs = lib.cstruct(pointer="uint8")
+                        if how == "text":
+                            cs.load(stext, compiled=compiled)
+                            S = cs.S
+                        else:
+                            A = cs._make_struct("A", [_F("p", cs.uint16)], anonymous=True)
+                            S = cs._make_struct("S", [])
+                            if compiled:
+                                S = _c2.compile(S)
+                            steps_ = [("n", cs.uint8), ("d", cs.uint8[_E2(cs, "n")]), (None, A), ("g", cs._make_pointer(S)), ("t", cs.uint8)]
+                            if how == "batch":
+                                with S.start_update():
+                                    for n_, t_ in steps_:
+                                        S.add_field(n_, t_)
+                            elif how == "single":
+                                for n_, t_ in steps_:
+                                    S.add_field(n_, t_)
+                            else:
+                                with S.start_update():
+                                    for n_, t_ in steps_[:2]:
+                                        S.add_field(n_, t_)
+                                with S.start_update():
+                                    for n_, t_ in steps_[2:]:
+                                        S.add_field(n_, t_)
+                        o = S(data)
+                        states[how] = (bool(S.__compiled__), source_of(S), S.dynamic, [int(x) for x in o.d], int(o.p), int(o.g), int(o.t),
+                                       o.dumps())
+                    if len({repr(v) for v in states.values()}) != 1:
+                        ctx.violation("reader", "compiled-state-differs-from-one-shot",
+                                      {"text": stext, "compiled": compiled, "states": repr({k: v[:3] for k, v in states.items()})[:600],
+                                       "workload": "self-reference"})
+                    else:
+                        ctx.event("selfref_after_anonymous_checked")
+                except Exception as e:  # noqa: BLE001
+                    ctx.violation("self-reference", f"self-referential-structure-raises:{type(e).__name__}",
+                                  {"text": stext, "compiled": compiled, "error": lib.exc_sig(e)})
             # forward reference with arrays and a later-defined twin: same layout as without self reference
             text2 = "struct T { uint8 n; T *self; T *arr[2]; uint16 t; };\nstruct P { uint8 n; uint8 *self; uint8 *arr[2]; uint16 t; };"
             try:
